@@ -45,7 +45,7 @@ C07 = "C07.planner.deps_snapshot"
 C18 = "C18.planner.combine_deps_snapshot"
 NAMES = [P1, P2, P5, P4, P7, P3, P3T, P3C, C07, C18]
 
-PROPS = {P1: "C02", P2: "C02", P5: "C02", P4: "C02", P7: ["C02", "C08"], P3: "C01",
+PROPS = {P1: ["C02", "C09"], P2: "C02", P5: "C02", P4: ["C02", "C09"], P7: ["C02", "C08"], P3: "C01",
          P3T: "C01", P3C: "C01", C07: "C07", C18: "C18"}
 
 RULES = {
